@@ -96,7 +96,7 @@ type runResult struct {
 // runMrp runs the real mrp on a program directory.
 func runMrp(bindir, dir, psid string, extraArgs []string, extraEnv []string, timeout time.Duration) runResult {
 	mrp := filepath.Join(bindir, "bin", "mrp")
-	args := append([]string{"pipeline.mro", psid, "--localcores=8", "--localmem=8", "--disable-ui", "--nopreflight"}, extraArgs...)
+	args := append([]string{"pipeline.mro", psid, "--localcores=8", "--localmem=8", "--disable-ui"}, extraArgs...)
 	cmd := exec.Command(mrp, args...)
 	cmd.Dir = dir
 	cmd.Env = append(os.Environ(),
@@ -178,7 +178,16 @@ func c01GenProgs(args []string) {
 	rng := hx.NewRng(seed)
 	stats := map[string]int{}
 	for i := 0; i < n; i++ {
-		g := pgen.NewG(rng, pgen.DefaultOpts())
+		opts := pgen.WildFlat()
+		mode := "mode_wild_flat"
+		switch k := rng.Intn(10); {
+		case os.Getenv("VH_GEN_MODE") == "wild_nested" || k < 4:
+			opts, mode = pgen.WildNested(), "mode_wild_nested"
+		case k < 7:
+			opts, mode = pgen.TameNested(), "mode_tame_nested"
+		}
+		g := pgen.NewG(rng, opts)
+		g.Stats[mode]++
 		p := g.Gen(stagecmd)
 		dir := filepath.Join(outdir, fmt.Sprintf("p%04d", i))
 		os.MkdirAll(dir, 0o755)
@@ -195,6 +204,7 @@ func c01GenProgs(args []string) {
 			}
 		}
 		os.WriteFile(filepath.Join(dir, "splits.txt"), []byte(strings.Join(splits, "\n")), 0o644)
+		os.WriteFile(filepath.Join(dir, "mapped_pipelines.txt"), []byte(strings.Join(p.MappedPipelinePaths(), "\n")), 0o644)
 		for k, v := range g.Stats {
 			stats[k] += v
 		}
